@@ -16,6 +16,7 @@ var tiers = map[string][3]int{
 	"C06": {800, 15000, 0},
 	"C12": {150, 3000, 0},
 	"C11": {800, 8000, 0},
+	"C07": {3000, 40000, 0},
 }
 
 func tierOf(id string, thorough bool) tierCfg {
@@ -50,5 +51,9 @@ func init() {
 	props["C11"] = propCfg{
 		Rule:        "workspaces as in C05; 1-6 renameable occurrences per workspace (locals, parameters, loop variables, local functions, globals across files) are renamed to a fresh identifier of a different length. Oracle: (1) edits do not overlap, each covers exactly the old name, and the edit set equals the reference binder's occurrence class; (2) metamorphic: the edit is applied to the client's files, the result must be valid Lua whose binding graph (reference binder) is isomorphic to the original's, and a fresh server on the edited workspace must publish the original diagnostics (all checks on) with positions shifted by the edits. Non-trivial: the renamed variable has >= 2 occurrences and another variable of the same old name exists in the file; distinct by workspace text + picks.",
 		Assumptions: append([]string{refluaAssume, "new names are fresh in the workspace, not keywords or built-ins"}, commonAssume...),
+	}
+	props["C07"] = propCfg{
+		Rule:        "1-3-file workspaces mixing locals, parameters, loop variables, shadowing, closure-only and until-only reads, write-only locals, globals defined in another file / later in the same file, never-defined globals (Undef1, Undef2), built-ins; configuration by client flags (checks 1,2,3,4,17) or by luahelper.json (IgnoreModules, IgnoreErrorTypes). Oracle: reference binder — expected type 2 = reads bound to no local, defined by no file, not built-in, not ignored; type 3 = top-level read whose only definitions are later top-level assignments of the same file; type 4 = never-read locals minus the documented exemptions (function values, _, parameters, loop variables, <close>, library aliases, require results); type 17 = assignment sites of those. Compared as sets of (file, range, type) in both directions. Non-trivial: a workspace with >= 1 expected type 2, >= 1 expected type 4 and >= 1 tempting non-warning (upvalue read or cross-file global); distinct by workspace text + mode.",
+		Assumptions: append([]string{refluaAssume, "don't-care (accepted either way): reads that are operands of and/or/==/~=/not or sit in a condition, reads inside the statement that defines the same global, globals defined both later in the file and in another file, write-only locals that are later assigned a function or library alias"}, commonAssume...),
 	}
 }
